@@ -228,14 +228,27 @@ def run(pid, tier, seed):
     pick = names
   nval, badval = validate_model(pick[:80], rnd)
   harness = []
+  early = []
   if badval:
+    # The model is a transcription of the real code on integers; a disagreement means the real code changed in a way the
+    # transcription does not follow.  Before giving up, the property itself is evaluated on the REAL code at the disagreeing
+    # instants: if it fails there, that is a replayed violation, not a harness problem.
+    for b in badval[:400]:
+      if b[0] == "date":
+        continue
+      for ob in ("roundtrip", "local"):
+        w = {"engine": "E3", "zone": b[0], "ob": ob, "value": b[1]}
+        msg = replay_concrete(w)
+        if msg and len(early) < 20:
+          early.append({"sig": {"pid": pid, "ob": ob, "zone": b[0]}, "msg": msg + " (found by the differential pass of the integer model)", "witness": w})
+  if badval and not early:
     harness.append("integer datetime model disagrees with the real datetime on %d of %d test instants: %s" % (len(badval), nval, badval[:3]))
   obs = ["roundtrip", "date", "local"]
   tasks = [(n, ["roundtrip", "local"] + (["date"] if i == 0 else [])) for i, n in enumerate(pick)]
   results = common.pmap(run_zone, tasks)
   paths = queries = unknown = 0
   solver_s = 0.0
-  violations = []
+  violations = list(early)
   rows = []
   obligations = discharged = 0
   for t, (st, r) in zip(tasks, results):
